@@ -256,11 +256,87 @@ def polygrid_strategy(tier):
     return s()
 
 
+# ------------------------------------------------------------------------------------------- conic constructors on a lattice
+@st.composite
+def conic_case(draw, tier="quick"):
+    line = draw(st.tuples(st.integers(-2, 2), st.integers(-2, 2), st.integers(-2, 2)).filter(lambda l: l[0] or l[1]).map(list))
+    pt = st.tuples(st.integers(-3, 3), st.integers(-3, 3)).filter(lambda p: line[0] * p[0] + line[1] * p[1] + line[2] != 0)
+    pts = draw(st.lists(pt, min_size=5, max_size=5, unique=True))
+    return {"ctor": draw(st.sampled_from(["from_tangent", "from_tangent", "from_points", "from_foci", "from_lines"])),
+            "pts": [list(p) for p in pts], "line": line, "factors": [draw(mscale()) for _ in range(6)]}
+
+
+def _conic_args(c):
+    pts = c["pts"]
+    if len(pts) != 5 or any(len(p) != 2 for p in pts) or len(c["line"]) != 3:
+        raise Skip("malformed")
+    P = [np.array([p[0], p[1], 1.0]) for p in pts]
+    l = np.array(c["line"], dtype=float)
+    if not (l[0] or l[1]):
+        raise Skip("not a finite line")
+    return P, l
+
+
+def run_conic(c):
+    P, l = _conic_args(c)
+    f = [mvalue(s) for s in c["factors"]]
+    if len(f) < 6:
+        raise Skip("malformed")
+    ctor = c["ctor"]
+    if ctor == "from_tangent":
+        build = lambda P, l: G.Conic.from_tangent(Line(l), *[Point(p) for p in P[:4]])
+    elif ctor == "from_points":
+        build = lambda P, l: G.Conic.from_points(*[Point(p) for p in P])
+    elif ctor == "from_foci":
+        (ax, ay), (bx, by), (cx, cy) = c["pts"][:3]
+        if (bx - ax) * (cy - ay) == (by - ay) * (cx - ax) and (cx - ax) * (cx - bx) + (cy - ay) * (cy - by) <= 0:
+            raise Skip("boundary point on the segment between the foci: no non-degenerate conic")
+        build = lambda P, l: G.Conic.from_foci(Point(P[0]), Point(P[1]), Point(P[2]))
+    elif ctor == "from_lines":
+        build = lambda P, l: G.Conic.from_lines(Line(l), Line(np.cross(P[0], P[1])))
+    else:
+        raise Skip("unknown constructor")
+    site = "Conic." + ctor
+    r1, fl = call(site, build, P, l)
+    if fl:
+        raise Skip("constructor rejects the original arguments (subject of C13)")
+    a1 = np.asarray(r1.array)
+    if not np.all(np.isfinite(a1)) or np.max(np.abs(a1)) == 0:
+        raise Skip("no conic for the original arguments (subject of C13)")
+    P2 = [p * s for p, s in zip(P, f)]
+    r2, fl = call(site + ":rescaled", build, P2, l * f[5])
+    if fl:
+        return [fl]
+    ck = Checker()
+    ck.check(C.peq_all(a1, np.asarray(r2.array), naxes=2, tol=1e-6), site + ":same-conic", C.short((a1.tolist(), np.asarray(r2.array).tolist())))
+    return ck.result()
+
+
+def conic_labels(c):
+    out = [c["ctor"]]
+    if c["ctor"] == "from_tangent":
+        try:
+            P, l = _conic_args(c)
+            par = 0
+            for i, j in ((0, 2), (1, 3), (0, 1), (2, 3)):
+                m = np.cross(np.cross(P[i], P[j]), l)
+                par += abs(m[2]) < 1e-9 and np.max(np.abs(m)) > 0
+            out.append("aux-point-at-infinity" if par else "aux-points-finite")
+        except Skip:
+            pass
+    if sum(s[0] < 0 for s in c["factors"][:4]) % 2:
+        out.append("odd-number-of-negative-factors")
+    return out
+
+
 LAWS = [
     Law("rescale_argument", lambda tier: case(tier), run, nontrivial, labels, {"quick": 6000, "thorough": 150000},
         "op(args) vs op(args with one argument's homogeneous representative rescaled)", shard=400, mandatory=("negative-factor", "complex-factor")),
     Law("polygon_grid", polygrid_strategy, run_polygrid, lambda c: any(f[0] < 0 for f in c["factors"]), lambda c: [c["kind"], "embedded3d" if c["embed"] else "planar"],
         {"quick": 400, "thorough": 8000}, "polygon with rescaled vertices vs the same polygon: contains on the full query grid, area, ==, intersect", shard=50),
+    Law("conic_constructors", lambda tier: conic_case(tier), run_conic, lambda c: any(s[0] < 0 or s[1] != 0 or s[2] != 1 for s in c["factors"]), conic_labels,
+        {"quick": 1500, "thorough": 40000}, "Conic.from_tangent/from_points/from_foci/from_lines on lattice data (parallel connecting lines are common) vs the same call with every argument rescaled independently", shard=300,
+        mandatory=("aux-point-at-infinity", "odd-number-of-negative-factors")),
     Law("equality", lambda tier: eq_case(tier), run_eq, lambda c: True, lambda c: [f"{c['kind']}{c['d']}"], {"quick": 1500, "thorough": 30000},
         "== holds for every non-zero multiple, is reflexive and symmetric, and is false for objects that are clearly not multiples", shard=400),
 ]
